@@ -153,6 +153,11 @@ CURATED = [
     [('a', S('f64')), ('b', S('f64'))], [('a', S('i64')), ('b', S('f64'))], [('a', S('f64')), ('b', S('i64'))], [('a', S('u8'))], [('a', S('i64')), ('b', S('u8'))],
     [('a', Array(2, S('f32'))), ('b', S('i32'))], [('a', S('f32')), ('b', S('i32')), ('c', S('f64'))], [('a', Ptr(S('i32'))), ('b', S('u16'))],
     [('a', Array(3, S('u8'))), ('b', Array(2, S('i32')))], [('a', S('i64')), ('b', S('i64')), ('c', S('u8'))],
+    # arrays that start in the middle of an eightbyte and continue into the next one (the classes of the two eightbytes
+    # differ: each element is classified at its own offset)
+    [('tag', S('i32')), ('v', Array(2, S('f32')))], [('a', S('i32')), ('v', Array(3, S('f32')))], [('a', S('u8')), ('v', Array(3, S('f32')))],
+    [('a', S('f32')), ('v', Array(2, S('i32')))], [('a', S('f32')), ('v', Array(3, S('i32')))], [('a', S('u16')), ('b', Array(2, S('f32'))), ('c', S('f32'))],
+    [('v', Array(3, S('f32'))), ('t', S('i32'))], [('v', Array(3, S('i32'))), ('t', S('f32'))], [('a', S('f32')), ('v', Array(2, S('f32'))), ('t', S('u8'))],
 ]
 
 
@@ -517,8 +522,8 @@ def gcc_replay(chk, c, structs, src):
 def run(chk, tier, seed):
     common.build_capy()
     rnd = random.Random(seed)
-    structs = [Struct('K%d' % i, f) for i, f in enumerate(CURATED)] + [gen_struct(rnd, i) for i in range(10 if tier == 'quick' else 150)]
-    cases = gen_cases(rnd, structs, 30 if tier == 'quick' else 1600)
+    structs = [Struct('K%d' % i, f) for i, f in enumerate(CURATED)] + [gen_struct(rnd, i) for i in range(24 if tier == 'quick' else 150)]
+    cases = gen_cases(rnd, structs, 60 if tier == 'quick' else 1600)
     src, refs = capy_sources(structs, cases)
     mod, out = clifcheck.compile_module('C19', 'abi', src + refs + 'main :: () { refs(); }\n')
     if mod is None:
